@@ -7,11 +7,11 @@ CONSTANTS
   Starts <- EdgeOffsets
   Lens <- EdgeLens
   Modes = {"static", "auto", "chunk"}
-  Chunks = {1, 2, 3, 7, 31, 63}
-  Pools <- PoolsAll
+  Chunks = {1, 3, 31, 63}
+  Pools <- PoolsQ
   Waits = {TRUE, FALSE}
-  MinItems = {0, 1, 2, 3, 5, 9, 17, 33}
-  Grans = {0, 1, 2, 3, 4, 5, 32}
+  MinItems = {0, 1, 2, 5, 17, 33}
+  Grans = {0, 1, 2, 3, 5, 32}
   Props = {"c12"}
   L3 = 3
   GSpan = 2
